@@ -110,9 +110,17 @@ def make_datetime_shim(clock):
 
 
 def install_clock(clock):
+    """Put the simulated clock behind every name through which
+    labella.timeline can reach date.today()."""
+    import types as _types
+
     import labella.timeline as tl
 
-    tl.datetime = make_datetime_shim(clock)
+    shim = make_datetime_shim(clock)
+    if isinstance(getattr(tl, "datetime", None), _types.ModuleType):
+        tl.datetime = shim                      # `import datetime`
+    if getattr(tl, "date", None) is _real_datetime.date:
+        tl.date = shim.date                     # `from datetime import date`
 
 
 # ---------------------------------------------------------------- S3: files
